@@ -85,7 +85,7 @@ fn gen_reused(t: &mut Tape) -> Scenario {
     };
     sc.set_b("trailing", trailing);
     sc.set_i("rk", [RK_SIM, RK_SLICE, RK_CURSOR, RK_BUFREADER][t.below(4) as usize]);
-    sc.set_i("bufcap", t.range(1, 200));
+    sc.set_i("bufcap", gen::draw_bufcap(t, 200));
     sc.set_l("src_script", gen::draw_script(t));
     sc.note = format!("one reused {} over a container: {}", if lzma2 { "Lzma2Decoder" } else { "LzmaDecoder" }, notes.join("; "));
     sc
@@ -327,7 +327,7 @@ fn gen(t: &mut Tape, _tier: Tier) -> Scenario {
         match rk {
             RK_TAKE => payload_len as u64, // the decoder may see exactly the payload
             RK_CHAIN => t.below(payload_len as u64 + 2),
-            _ => t.range(1, 200),
+            _ => gen::draw_bufcap(t, 200),
         },
     );
     sc.set_l("src_script", gen::draw_script(t));
